@@ -15,7 +15,7 @@ import ast
 from ..core import AnalysisError, norm, loc, walk_no_nested, attr_chain, call_name, kwarg
 from ..schema import containment_schema
 from ..flags import check_flag_scope
-from ..normalize import inline, local_env, expand, canon, ctext, conjuncts, branch_values, merge_outcomes, Unknown, _enclosing
+from ..normalize import clone, inline, local_env, expand, canon, ctext, conjuncts, branch_values, merge_outcomes, Unknown, _enclosing
 from .. import flow
 from . import c12
 
@@ -80,6 +80,15 @@ MUTATORS = {'update_node_property', 'unset_node_property', 'update_node_properti
             'unset_link_property', 'rewrite_delegations'}
 
 
+def _ancestors(node, fn):
+    out = []
+    p = getattr(node, '_parent', None)
+    while p is not None and p is not fn:
+        out.append(p)
+        p = getattr(p, '_parent', None)
+    return out
+
+
 def run(prog, rep):
     rep.extra['explanation'] = (
         'generate_adms and its helpers are analysed for receiver purity (only clones are mutated), for the ranges and '
@@ -102,7 +111,35 @@ def run(prog, rep):
 
     # only aliases (locals naming an attribute / an element of a container) are expanded, not computed values
     genv = {k: v for k, v in local_env(ga).items() if isinstance(v, (ast.Name, ast.Attribute, ast.Subscript))}
-    T = lambda e: ctext(e, genv) if e is not None else None
+    # the locals the rules talk about, by the role they play (how they are produced), under canonical names
+    roles = {}
+    for n in walk_no_nested(ga):
+        if isinstance(n, ast.Assign) and len(n.targets) == 1 and isinstance(n.value, ast.Call):
+            cn_ = call_name(n.value)
+            tg = n.targets[0]
+            if cn_ == 'catalog_delegations' and isinstance(tg, ast.Tuple) and len(tg.elts) == 3 and all(isinstance(e, ast.Name) for e in tg.elts):
+                for e, c_ in zip(tg.elts, ('unique_delegation_ids', 'keep_nodes_sets', 'delegations_by_node')):
+                    roles[e.id] = c_
+            elif cn_ == 'get_stitch_nodes' and isinstance(tg, ast.Name):
+                roles[tg.id] = 'stitch_nodes'
+        if isinstance(n, ast.Assign) and len(n.targets) == 1 and isinstance(n.targets[0], ast.Name) and isinstance(n.value, ast.DictComp) and \
+                isinstance(n.value.value, ast.Call) and ast.unparse(n.value.value.func).endswith('DelegationInfo'):
+            roles[n.targets[0].id] = 'delegations_info'
+    if len(set(roles.values())) < 5:
+        raise AnalysisError(f'generate_adms: the catalogue / stitch / per-delegation info locals were not found (found {sorted(roles.values())})')
+
+    class _Roles(ast.NodeTransformer):
+        def visit_Name(self, node):
+            if node.id in roles:
+                return ast.copy_location(ast.Name(id=roles[node.id], ctx=node.ctx), node)
+            return node
+
+    def RN(e):
+        return _Roles().visit(clone(e))
+
+    def U(e):
+        return ast.unparse(RN(e))
+    T = lambda e: ctext(RN(expand(e, genv))) if e is not None else None
 
     # ---- R1 ----
     for fn in (ga, ud):
@@ -168,7 +205,7 @@ def run(prog, rep):
         if ast.unparse(node_loop.iter) != 'self.node_ids':
             rep.violation('R2', loc(mod, node_loop), 'ABCARMPropertyGraph.generate_adms', f'node loop over {ast.unparse(node_loop.iter)}',
                           'the rewrite must cover every node of the model')
-        if ast.unparse(id_loop.iter) != 'unique_delegation_ids':
+        if U(id_loop.iter) != 'unique_delegation_ids':
             rep.violation('R2', loc(mod, id_loop), 'ABCARMPropertyGraph.generate_adms', f'id loop over {ast.unparse(id_loop.iter)}',
                           'one partition per delegation id')
         # skip conditions inside the node loop may only depend on the delegations of the node
@@ -223,7 +260,7 @@ def run(prog, rep):
             nv = ast.unparse(loops[1].target)
             _, conds = _enclosing(cs, loops[1])
             for c_ in conds:
-                for cj in conjuncts(canon(expand(c_, genv))):
+                for cj in conjuncts(canon(RN(expand(c_, genv)))):
                     # "the node carries a delegation property of this type": <type> in delegations_by_node[<node>]
                     if ctext(cj) in (f'{tv} in delegations_by_node[{nv}]', f'delegations_by_node[{nv}][{tv}] is not None'):
                         ok = True
@@ -236,12 +273,14 @@ def run(prog, rep):
     gtxt = ast.unparse(ga)
     stitch = [n for n in walk_no_nested(ga) if isinstance(n, ast.Assign) and isinstance(n.value, ast.Call) and call_name(n.value) == 'get_stitch_nodes']
     rep.instance('R3', f'generate_adms: {norm(stitch[0]) if stitch else "stitch nodes not collected"}')
-    svar = stitch[0].targets[0].id if stitch else None
+    svar = 'stitch_nodes' if stitch else None
     keep_init = [k.value for c in ast.walk(ga) if isinstance(c, ast.Call) and ast.unparse(c.func).endswith('DelegationInfo')
                  for k in c.keywords if k.arg == 'keep_nodes']
     rep.instance('R3', f'generate_adms: keep_nodes initialised as {norm(keep_init[0]) if keep_init else "?"}')
-    if not svar or not keep_init or svar not in ast.unparse(keep_init[0]) or 'union' not in ast.unparse(keep_init[0]) or \
-            'keep_nodes_sets[del_id]' not in ast.unparse(keep_init[0]):
+    comp_keys = [ast.unparse(c.key) for c in ast.walk(ga) if isinstance(c, ast.DictComp) and isinstance(c.value, ast.Call) and
+                 ast.unparse(c.value.func).endswith('DelegationInfo')]
+    if not svar or not keep_init or not comp_keys or svar not in U(keep_init[0]) or 'union' not in U(keep_init[0]) or \
+            f'keep_nodes_sets[{comp_keys[0]}]' not in U(keep_init[0]):
         rep.violation('R3', loc(mod, ga), 'ABCARMPropertyGraph.generate_adms', 'keep set not seeded with delegated nodes and stitch nodes',
                       'every partition must keep the nodes delegated to its id and all stitching elements')
     for n in walk_no_nested(ga):
@@ -284,8 +323,24 @@ def run(prog, rep):
         if w not in set(got):
             rep.violation('R4', loc(mod, ga), 'ABCARMPropertyGraph.generate_adms', f'trace {w} missing',
                           'a kept interface must bring its link and peer, its owning service and that service\'s owner into the partition')
+    full_env = local_env(ga)
+
+    def _trace_element(c):
+        # the argument is the element of a loop over the result of a trace call
+        if not (c.args and isinstance(c.args[0], ast.Name)):
+            return False
+        for l in [p_ for p_ in _ancestors(c, ga) if isinstance(p_, ast.For)]:
+            if isinstance(l.target, ast.Name) and l.target.id == c.args[0].id:
+                it = l.iter
+                if isinstance(it, ast.Name):
+                    # the nearest preceding assignment of the iterated local
+                    defs = [a for a in walk_no_nested(ga) if isinstance(a, ast.Assign) and any(isinstance(t, ast.Name) and t.id == it.id for t in a.targets)
+                            and a.lineno <= l.lineno]
+                    it = defs[-1].value if defs else it
+                return isinstance(it, ast.Call) and call_name(it) == 'get_first_and_second_neighbor'
+        return False
     upd_pairs = [c for c in walk_no_nested(ga) if isinstance(c, ast.Call) and isinstance(c.func, ast.Attribute) and c.func.attr == 'update'
-                 and ast.unparse(c.func.value).endswith('.keep_nodes') and c.args and ast.unparse(c.args[0]) == 'pair']
+                 and ast.unparse(c.func.value).endswith('.keep_nodes') and _trace_element(c)]
     if len(upd_pairs) < 3:
         rep.violation('R4', loc(mod, ga), 'ABCARMPropertyGraph.generate_adms', 'trace results not added to the keep set', 'traced elements must be kept')
 
